@@ -26,6 +26,7 @@ class Hooks(object):
         self.la = None         # fn(name, args, kwargs) -> result or NotImplemented
         self.log = None        # fn(level, msg)
         self.warn = None
+        self.fmt = None        # list collecting formatting / str() calls (C20)
 
 
 HOOKS = Hooks()
@@ -187,6 +188,8 @@ def b_range(*a):
 
 
 def b_str(x=''):
+    if HOOKS.fmt is not None:
+        HOOKS.fmt.append(('str', x))
     if isinstance(x, (SArr, SInt, SFloat, SBool, SFP)):
         return "<sym>"
     if isinstance(x, Fraction):
@@ -224,7 +227,13 @@ class FmtRecord(str):
 
 def _fmt(template, args):
     tup = args if isinstance(args, tuple) else (args,)
+    if HOOKS.fmt is not None:
+        HOOKS.fmt.append((template, tup))
     if any(isinstance(a, (SInt, SFloat, SBool, SFP, SArr)) for a in tup):
+        # formatting uses representative values, so e.g. "%g" % None still raises exactly as in CPython
+        reps = tuple(1.5 if isinstance(a, (SFloat, SFP)) else 1 if isinstance(a, SInt) else True if isinstance(a, SBool)
+                     else "<arr>" if isinstance(a, SArr) else float(a) if isinstance(a, Fraction) else a for a in tup)
+        template % (reps if isinstance(args, tuple) else reps[0])
         return FmtRecord(template, tup)
     conv = tuple(float(a) if isinstance(a, Fraction) else a for a in tup)
     # %d / %i of None etc. must raise as in CPython
